@@ -288,6 +288,62 @@ Definition thread_history (r : replay_check) (side : option (list nat)) (log : l
 Definition sidecar_after_loss (n j : nat) : option (list nat) :=
   if Nat.ltb j n then Some (seq j (n - j)) else None.
 
+(* ---------- what a handler does when its receiver LAGGED ----------
+   The bounded broadcast channel drops the oldest pending frame of a receiver that is `capacity` behind and tells it
+   `RecvError::Lagged` at its next recv.  LagSkip: the handler ignores that (`Err(_) => None`) and carries on with the
+   oldest frame the channel still holds.  LagRefill (server.rs live_frames): it re-reads the stream's history and carries
+   on after the last seq it has delivered; the filter `seq > last` runs on the seq of the last frame DELIVERED (history
+   or live), not only on the last history seq.
+   Producer = record-then-publish, handler = subscribe-then-snapshot (the orders of today's code); the schedule is any
+   list over {AP, AS i, AO} as before. *)
+Inductive lagpolicy := LagSkip | LagRefill.
+Definition lag_refills (p : lagpolicy) : bool := match p with LagRefill => true | LagSkip => false end.
+Record rsub := {
+  rs_pc : nat;                          (* 0: not subscribed, 1: subscribed, >= 2: snapshotted (attached) *)
+  rs_live : list (option nat);          (* receiver queue *)
+  rs_out : list nat;                    (* seqs written to the body so far *)
+  rs_pend : bool                        (* the receiver overflowed since its last recv: its next recv says Lagged *)
+}.
+Definition rfresh : rsub := {| rs_pc := 0; rs_live := []; rs_out := []; rs_pend := false |}.
+Record rst := { r_prog : list pstep; r_hist : list nat; r_subs : list rsub }.
+Definition rinit (n m : nat) : rst := {| r_prog := producer_prog RecThenPub n; r_hist := []; r_subs := repeat rfresh m |}.
+Definition rdeliver (cap : nat) (k : option nat) (s : rsub) : rsub :=
+  match s.(rs_pc) with
+  | 0 => s
+  | _ => let '(q, lag) := push_live (Some cap) k (rs_live s) in
+         {| rs_pc := rs_pc s; rs_live := q; rs_out := rs_out s; rs_pend := rs_pend s || lag |}
+  end.
+(* frames go out one by one; each is kept iff its seq is above the last seq written so far *)
+Fixpoint emit_new (out : list nat) (l : list nat) : list nat :=
+  match l with
+  | [] => out
+  | k :: r => emit_new (if keep FilterGtLast (last_seq out) k then out ++ [k] else out) r
+  end.
+Definition rdrain (pol : lagpolicy) (hist : list nat) (s : rsub) : rsub :=
+  let refilled := if rs_pend s && lag_refills pol then emit_new (rs_out s) hist else rs_out s in
+  {| rs_pc := rs_pc s; rs_live := []; rs_out := emit_new refilled (own (rs_live s)); rs_pend := false |}.
+Definition rsub_step (pol : lagpolicy) (hist : list nat) (s : rsub) : rsub :=
+  match rs_pc s with
+  | 0 => {| rs_pc := 1; rs_live := []; rs_out := []; rs_pend := false |}
+  | 1 => {| rs_pc := 2; rs_live := rs_live s; rs_out := hist; rs_pend := rs_pend s |}
+  | _ => rdrain pol hist s
+  end.
+Definition rstep (pol : lagpolicy) (cap : nat) (s : rst) (a : actor) : rst :=
+  match a with
+  | AP => match r_prog s with
+          | [] => s
+          | Pub k :: r => {| r_prog := r; r_hist := r_hist s; r_subs := map (rdeliver cap (Some k)) (r_subs s) |}
+          | Rec k :: r => {| r_prog := r; r_hist := r_hist s ++ [k]; r_subs := r_subs s |}
+          end
+  | AS i => {| r_prog := r_prog s; r_hist := r_hist s; r_subs := upd_nth i (rsub_step pol (r_hist s)) (r_subs s) |}
+  | AO => {| r_prog := r_prog s; r_hist := r_hist s; r_subs := map (rdeliver cap None) (r_subs s) |}
+  end.
+Definition rfinal (pol : lagpolicy) (cap n m : nat) (sched : list actor) : rst := fold_left (rstep pol cap) sched (rinit n m).
+Definition rattached (s : rsub) : bool := Nat.leb 2 (rs_pc s).
+(* what the client has once it has read everything that is pending *)
+Definition rdelivered (pol : lagpolicy) (fin : rst) (s : rsub) : list nat := rs_out (rdrain pol (r_hist fin) s).
+Definition rpublished (n : nat) (s : rst) : nat := n - count_pub (r_prog s).
+
 (* ---------- correspondence ---------- *)
 Definition enc_list (l : list nat) : list N := nlen l :: map N.of_nat l.
 Definition observe (c : cfg) (s : st) : list N :=
